@@ -38,6 +38,9 @@ TRUSTED_BASE = [
 
 
 def main():
+    import logging
+
+    logging.getLogger("bio2zarr").setLevel(logging.ERROR)
     ap = argparse.ArgumentParser()
     ap.add_argument("pid")
     ap.add_argument("--tier", default=os.environ.get("VERIF_TIER", "quick"), choices=["quick", "thorough"])
